@@ -15,7 +15,7 @@ CHECKS = {
             "messages is XORed/truncated by a MITM, a rogue peer with a valid Noise session presents a catalogue of forged identity payloads in "
             "both roles, honest controls run under hostile fragmentation. Oracle: Ok(P) only for the true signer of this session's static key; "
             "the receiver of an altered message fails; termination by virtual-time deadlock detection.",
-            "Trusts snow/ring and libp2p-identity (used to compute ground truth); weak ed25519 keys excluded; node-level dial-expectation clause covered by the real-node harness.",
+            "Trusts snow/ring and libp2p-identity (used to compute ground truth); weak ed25519 keys excluded. Node level (real nodes on loopback, fault proxy): a dial with another peer's /p2p never yields a connection at the dialer, and a bit flipped at a swept offset of the connection set-up (offsets inside the Noise handshake) never yields a connection at the side that received it.",
             "DESIGN.md §3 C01"),
     "C02": ("fault_enumeration",
             "position-keyed byte-stream monitor over real NoiseSockets + single-frame tamper enumeration by a MITM + branch probes",
@@ -31,7 +31,7 @@ CHECKS = {
             "Every generated (dialer list, listener set, version, carrier script, payload sizes) case runs the real dialer/listener futures over in-memory pipes; "
             "oracle = first-common-name rule, both sides agree, payload written immediately after negotiation arrives unchanged with zero extra bytes before EOF, "
             "termination by virtual-time deadlock detection; the WebRTC message variant is enumerated over all main/fallback/listener subsets of 4 names x 4 groupings.",
-            "Reference = multistream-select 0.13; names follow the multistream grammar; node-level fallback mapping is covered by the real-node harness.",
+            "Reference = multistream-select 0.13; names follow the multistream grammar. Node level: two real nodes with notification protocols over ordered (main, fallbacks) lists of 1-3 of 4 names; the name reported by the listener's validation prompt and by the dialer's stream-opened event must be the dialer's most preferred common name.",
             "DESIGN.md §3 C03"),
     "C04": ("exploration",
             "message-sequence equality monitor over real Substreams on in-memory yamux + lock-step hand-off check + raw malicious sender + allocation monitor, both build profiles",
@@ -69,7 +69,7 @@ CHECKS = {
             "The scripted connection records the instant at which every protocol released it; oracle: never earlier than (last keep-alive activity, timestamped "
             "before the call) + timeout, never while a keep-alive substream is held or an open is in flight, not later than 500 ms after it is due while idle, "
             "traffic of non-keep-alive protocols every T/2 for > T + 1 s must not prolong it, and after the last activity every connection is released within 3 timeouts + 1 s.",
-            "Lifetime-permit placement of real TcpConnection (tcp/connection.rs) is mirrored, not exercised, by this layer; it is exercised by the real-node layer.",
+            "Layer b (same check): real nodes on loopback with 400-900 ms keep-alive on the node under test: idle, outbound/inbound substream held for 2.5-4 timeouts, activity shortly before expiry, ping (T/5) + identify only; one-sided early verdicts (reference = the instant the command was sent), late verdict with a 3 T + 3 s window and lag canary. Inbound substreams of the scripted layer are negotiated under main or fallback names.",
             "DESIGN.md §3 C09"),
     "C10": ("exploration",
             "address-book snapshot invariants (hook accessor) + open() argument check on the real TransportManager (same scripted harness as C05)",
